@@ -23,7 +23,9 @@ BUDGET = {
 }
 
 SYMS = ['a', 'b', 'c', 'expr', 'term', 'name_1', 'X']
-STRINGS = ['"x"', '"if"', '"+"', '"|"', '"("', '")"', '"["', '"]"', '":="', '"\\n"', '"\\t"', '"->"', '"*"', '"?"', '"/"', '"a b"', '"=="']
+STRINGS = ['"x"', '"if"', '"+"', '"|"', '"("', '")"', '"["', '"]"', '":="', '"\\n"', '"\\t"', '"->"', '"*"', '"?"', '"/"', '"a b"', '"=="',
+	# raw control characters inside longer terminals (the reader restores a backslash escape only when it is the whole terminal)
+	'"a\tb"', '"\t\t"', '"=>\t"', '"\x0c "', '"\\n"', '"a\\tb"', '"#"']
 REGEXPS = ['/[a-z]+/', '/\\d+/', '/[a-zA-Z_]\\w*/', '/"[^"]+"/', '/[\\/].+[\\/]/', '/[*+?]/', '/x{1,3}/', '/[1*]/']
 META = set('|()[]*+?/\\"')
 
